@@ -1,7 +1,7 @@
 """C07 — NPC global p-value is an exact rank p-value: never zero, exactly valid."""
 from fractions import Fraction as Fr
 import numpy as np
-from .common import guarded, run_model, rat, rats, rows, frac, fracs, close, numerator_of
+from .common import guarded, run_model, rat, rats, rows, frac, fracs, close, numerator_of, POOL, layout
 from .npcutil import scripted_experiment, npc_exact, row_pvals_exact, comb_exact
 
 RULE = ("sim_npc driven by a scripted Randomizer and table-lookup test functions over generated integer tables "
@@ -15,12 +15,29 @@ ASSUMPTIONS = ["Fisher/Liptak/user combiners are evaluated in doubles: rows whos
                "although their p-vectors differ may be ordered either way; the implementation's count must lie in the bracket "
                "[ge - ambiguous, ge] (bracketed comparisons are counted in the evidence)",
                "Liptak (normal quantiles) has no exact model: checked for range, never-zero and against a double-precision oracle only"]
-COMBS = ["fisher", "tippett", "liptak", "callable"]
+COMBS = ["fisher", "tippett", "liptak", "callable", "callable-dot", "callable-sum0", "callable-logsum0"]
+
+
+def user_combiner(kind, n, rng):
+    """user combining functions written the ways users write them; returns (python callable, model name)"""
+    if kind == "callable":
+        return (lambda p: -np.sum(p)), "negsum"
+    if kind == "callable-dot":
+        w = [rng.choice([0.5, 1.0, 2.0, 0.25]) for _ in range(n)]
+        wa = np.array(w)
+        return (lambda p: -np.dot(wa, p)), "negwsum:" + " ".join(str(Fr(v)) for v in w)
+    if kind == "callable-sum0":
+        return (lambda p: -p.sum(0)), "negsum"
+    if kind == "callable-logsum0":
+        return (lambda p: -2 * np.log(p).sum(axis=0)), "fisher"
+    return kind, kind
 
 
 def gen_table(ctx):
     reps = ctx.rng.choice([1, 2, 3, 5, 8, 10, 13, 20, 40]) if ctx.rng.random() < 0.7 else (ctx.rng.randint(1, 40) if ctx.rng.random() < 0.85 else ctx.rng.choice([99, 150, 257]))
-    n = ctx.rng.randint(2, 5)
+    n = ctx.rng.randint(2, 5) if ctx.rng.random() < 0.85 else ctx.rng.choice([8, 9, 12, 16])
+    if ctx.rng.random() < 0.25:
+        reps = n - 1              # square matrix of statistics: #rows == #partial tests
     hi = ctx.rng.choice([2, 3, 6, 12])
     tv = [[ctx.rng.randint(0, hi) for _ in range(n)] for _ in range(reps)]
     mode = ctx.rng.choice(["extreme", "central", "copy", "mixed", "low"])
@@ -49,8 +66,8 @@ def run(ctx):
         if ctx.rng.random() < 0.3:
             kinds = [ctx.rng.choice(["f32", "int", "i64"])] * n      # a homogeneous non-float64 matrix
         e, tests, st = scripted_experiment(tv, ts, kinds)
-        r = guarded(npc.sim_npc, e, tests, combine=(user if comb == "callable" else comb), reps=reps,
-                    in_place=ctx.rng.random() < 0.3)
+        cfun, cname = user_combiner(comb, n, ctx.rng)
+        r = guarded(npc.sim_npc, e, tests, combine=cfun, reps=reps, in_place=ctx.rng.random() < 0.3)
         tie = any(len(set(r_[c] for r_ in tv + [ts])) < reps + 1 for c in range(n))
         ctx.case((tuple(map(tuple, tv)), tuple(ts), comb), tie or mode in ("extreme", "low"),
                  {"call": "sim_npc", "reps": reps, "combine": comb, "observed": ts, "table": tv[:6]})
@@ -70,8 +87,8 @@ def run(ctx):
         if k is None or k < 1 or k > reps + 1:
             bad = {"issue": "global p-value is not k/(reps+1) with 1 <= k <= reps+1 (the observed row must count itself)", "returned": float(p)}
         if bad is None:
-            if comb in ("fisher", "tippett", "callable"):
-                name = {"callable": "negsum"}.get(comb, comb)
+            if comb != "liptak":
+                name = cname
                 ps_exact = row_pvals_exact(D, False)[-1]
                 ge, amb = npc_exact(ps_exact, D, name, False)
                 if not (ge - amb <= k <= ge):
@@ -88,7 +105,8 @@ def run(ctx):
                 P[P >= 1] = 1 - np.finfo(float).eps
                 stat = np.array([np.sum(norm.ppf(1 - row)) for row in P])
                 obs = np.sum(norm.ppf(1 - np.array([float(rps[c]) for c in range(n)])))
-                strict = int(np.sum(stat > obs + 1e-9)); loose = int(np.sum(stat >= obs - 1e-9))
+                # the observed row (last) is the same vector as the observed p-values: it must count itself
+                strict = int(np.sum(stat[:-1] > obs + 1e-9)) + 1; loose = int(np.sum(stat[:-1] >= obs - 1e-9)) + 1
                 if not (strict <= k <= loose):
                     bad = {"issue": "liptak global p-value outside the double-precision bracket", "numerator": k, "bracket": [strict, loose]}
         if bad is not None:
@@ -99,15 +117,17 @@ def run(ctx):
         D = tv + [ts]; B = len(D)
         plus1 = ctx.rng.random() < 0.5
         c = 1 if plus1 else 0
-        comb = ctx.rng.choice(["fisher", "tippett", "callable"])
-        name = {"callable": "negsum"}.get(comb, comb)
+        comb = ctx.rng.choice(["fisher", "tippett", "callable", "callable-dot", "callable-sum0", "callable-logsum0"])
+        cfun, name = user_combiner(comb, n, ctx.rng)
         if ctx.rng.random() < 0.6:
             pv = [Fr(ctx.rng.randint(1, B + c), B + c) for _ in range(n)]      # on the grid: ties with rows
         else:
             pv = [Fr(ctx.rng.randint(1, 64), 64) for _ in range(n)]            # dyadic
         dt = ctx.rng.choice([float, float, np.float32, np.int64, int])
-        r = guarded(npc.npc, np.array([float(t) for t in pv]), np.array(D, dtype=dt),
-                    combine=(user if comb == "callable" else comb), plus1=plus1)
+        Darr = layout(POOL.get("distr", D, dt), ctx.rng)        # reused buffer, various memory layouts
+        if ctx.rng.random() < 0.3:                               # a different combiner first, on the very same contents
+            guarded(npc.npc, np.array([float(t) for t in pv]), Darr, combine=ctx.rng.choice(["liptak", "fisher", "tippett"]), plus1=plus1)
+        r = guarded(npc.npc, POOL.get("pv", [float(t) for t in pv], float), Darr, combine=cfun, plus1=plus1)
         ctx.case((tuple(map(tuple, D)), tuple(pv), comb, plus1), True); ctx.count("npc-" + comb + ("-plus1" if plus1 else "")); ctx.count("distr-dtype-" + np.dtype(dt).name)
         det = {"call": "npc", "combine": comb, "plus1": plus1, "pvalues": [str(t) for t in pv], "distr": D, "distr_dtype": np.dtype(dt).name}
         if r[0] != "ok":
